@@ -207,6 +207,7 @@ type Engine struct {
 	ufFactSet map[string]bool
 	ipStrOrigin map[string]ipOrigin
 	cutLines  map[string]bool
+	noModel   map[string]bool
 }
 
 type HarnessCfg struct {
